@@ -659,3 +659,145 @@ func ModeUse(p *core.Prog, r *core.Report) {
 	r.Count("mode_reads", n)
 	r.Floor("mode_reads", 3)
 }
+
+// WARN-NEUTRAL — warnings alone never make a document invalid: no error is added under a condition that reads
+// the warnings of a sub-result which can actually carry warnings. may-warn summary: a function that calls
+// AddWarnings / MergeAsWarnings, or a function returning / merging the result of such a function. A test
+// HasErrorsOrWarnings() / HasWarnings() on the result of a may-warn function must not control an AddErrors or an
+// error-message construction (on results that cannot carry warnings — the schema, parameter and header validators —
+// HasErrorsOrWarnings() is just HasErrors()).
+func WarnNeutral(p *core.Prog, r *core.Report) {
+	const rule = "WARN-NEUTRAL"
+	mayWarn := map[*ssa.Function]bool{}
+	for _, f := range p.Funcs {
+		if !p.InSubject(f) {
+			continue
+		}
+		core.EachInstr(f, func(i ssa.Instruction) {
+			if c, ok := i.(ssa.CallInstruction); ok {
+				if g := core.StaticCallee(c); g != nil && (g.Name() == "AddWarnings" || g.Name() == "MergeAsWarnings") && g.Signature.Recv() != nil && isResultPtr(g.Signature.Recv().Type()) {
+					mayWarn[core.EnclosingTop(f)] = true
+				}
+			}
+		})
+	}
+	// the Result methods themselves are not "producers"
+	for f := range mayWarn {
+		if f.Signature.Recv() != nil && isResultPtr(f.Signature.Recv().Type()) {
+			delete(mayWarn, f)
+		}
+	}
+	for changed := true; changed; {
+		changed = false
+		for _, f := range p.Funcs {
+			top := core.EnclosingTop(f)
+			if mayWarn[top] || !p.InSubject(f) || (top.Signature.Recv() != nil && isResultPtr(top.Signature.Recv().Type())) {
+				continue
+			}
+			core.EachInstr(f, func(i ssa.Instruction) {
+				if c, ok := i.(ssa.CallInstruction); ok {
+					if g := core.StaticCallee(c); g != nil && mayWarn[g] && g.Signature.Results().Len() > 0 && isResultPtr(g.Signature.Results().At(0).Type()) && !mayWarn[top] {
+						mayWarn[top] = true
+						changed = true
+					}
+				}
+			})
+		}
+	}
+	n := 0
+	seq := map[string]int{}
+	for _, f := range p.Funcs {
+		if !p.InSubject(f) {
+			continue
+		}
+		fn := core.FuncName(f)
+		core.EachInstr(f, func(i ssa.Instruction) {
+			c, ok := i.(ssa.CallInstruction)
+			if !ok {
+				return
+			}
+			g := core.StaticCallee(c)
+			if g == nil {
+				return
+			}
+			isErrEffect := (g.Name() == "AddErrors" && g.Signature.Recv() != nil && isResultPtr(g.Signature.Recv().Type()))
+			if !isErrEffect {
+				return
+			}
+			// the conditions the error depends on: its control conditions and, through boolean flags, the
+			// conditions under which those flags are set
+			var conds []core.Cond
+			seenPhi := map[*ssa.Phi]bool{}
+			var behind func(v ssa.Value, d int)
+			behind = func(v ssa.Value, d int) {
+				if d > 5 {
+					return
+				}
+				if u, ok := v.(*ssa.UnOp); ok && u.Op == token.NOT {
+					behind(u.X, d+1)
+					return
+				}
+				ph, ok := v.(*ssa.Phi)
+				if !ok || seenPhi[ph] {
+					return
+				}
+				if b, ok := ph.Type().Underlying().(*types.Basic); !ok || b.Kind() != types.Bool {
+					return
+				}
+				seenPhi[ph] = true
+				for k, e := range ph.Edges {
+					for _, c := range core.CondsAt(ph.Block().Preds[k]) {
+						conds = append(conds, c)
+						behind(c.Value, d+1)
+					}
+					behind(e, d+1)
+				}
+			}
+			for _, cd := range core.ControlConds(i.Block()) {
+				conds = append(conds, cd)
+				behind(cd.Value, 0)
+			}
+			for _, cd := range conds {
+				qc, ok := cd.Value.(*ssa.Call)
+				if !ok {
+					continue
+				}
+				q := core.StaticCallee(qc)
+				if q == nil || !(q.Name() == "HasErrorsOrWarnings" || q.Name() == "HasWarnings") || len(qc.Call.Args) == 0 {
+					continue
+				}
+				// whose warnings? the value of a call to a may-warn function
+				src := qc.Call.Args[0]
+				var producer *ssa.Function
+				if sc, ok := src.(*ssa.Call); ok {
+					producer = core.StaticCallee(sc)
+				}
+				if ex, ok := src.(*ssa.Extract); ok {
+					if sc, ok := ex.Tuple.(*ssa.Call); ok {
+						producer = core.StaticCallee(sc)
+					}
+				}
+				n++
+				base := fn + ":" + q.Name()
+				seq[base]++
+				key := base
+				if seq[base] > 1 {
+					key = fmt.Sprintf("%s#%d", base, seq[base])
+				}
+				if producer != nil && mayWarn[producer] {
+					r.Bad(rule, key, p.Pos(i.Pos()), fmt.Sprintf("an error is added depending on %s() of the result of %s, which can carry warnings only: a warning would turn into an error (a valid document becomes invalid)", q.Name(), core.FuncName(producer)))
+				} else {
+					r.OK(rule, key, p.Pos(i.Pos()), "the tested result comes from a validator that never produces warnings: the test is HasErrors()")
+				}
+			}
+		})
+	}
+	var mw []string
+	for f := range mayWarn {
+		mw = append(mw, core.FuncName(f))
+	}
+	sort.Strings(mw)
+	r.Info["may_warn_functions"] = mw
+	r.Count("warning_sensitive_error_sites", n)
+	r.Floor("warning_sensitive_error_sites", 5)
+}
